@@ -1,44 +1,92 @@
 //! SSE harness (tie K for C20): drives the REAL `oas3_gen_support::EventStream<serde_json::Value>`
 //! over a `reqwest::Response` whose body is a scripted chunk stream with `Pending` interleavings,
-//! polling by hand with a no-op waker.  One `{"op":"sse.run","in":{"script":[[bytes..]|"p",..]}}`
-//! per line in; `{"op","in","impl":[ "pending" | {"ok":v} | "jsonerr" | "sseerr" | "done", ..]}` out.
+//! polled by a minimal EXECUTOR: a counting waker, re-poll after `Pending` only if a wake-up happened.
+//! One `{"op":"sse.run","in":{"script":[[bytes..]|"p"|"w",..]}}` per line in (`"p"`: Pending, the
+//! transport keeps the waker and wakes it after the call; `"w"`: Pending, woken before returning);
+//! `{"op","in","impl":[ {"pending":{"inner":b,"woke":b}} | {"ok":v} | "jsonerr" | "sseerr" | "done"
+//! | {"stalled":true,"after_events":k,"inner":b} | "no-end", ..]}` out.  `inner`: the scripted
+//! transport answered Pending in that call; `woke`: the task's waker was woken during the call.
 use std::{
   collections::VecDeque,
   io::{BufRead, Write},
   pin::Pin,
-  task::{Context, Poll},
+  sync::{
+    Arc, Mutex,
+    atomic::{AtomicUsize, Ordering},
+  },
+  task::{Context, Poll, Wake, Waker},
 };
 
-use futures::{Stream, task::noop_waker};
+use futures::Stream;
 use oas3_gen_support::{EventStream, EventStreamError};
 use serde_json::{Value, json};
 
 enum Step {
   Chunk(Vec<u8>),
-  Pending,
+  /// `Pending`; the transport keeps the waker and wakes it after the call returned ("p")
+  PendLater,
+  /// `Pending`; the transport wakes the waker before it returns ("w")
+  PendWake,
+}
+
+/// what the scripted transport did during the current call of `EventStream::poll_next`
+#[derive(Default)]
+struct Transport {
+  /// the transport answered `Pending` in this call (it is the one that holds the waker)
+  pending_in_call: bool,
+  /// waker taken by a `PendLater` step, to be woken by the "reactor" after the call
+  kept: Option<Waker>,
 }
 
 struct Script {
   steps: VecDeque<Step>,
+  tr: Arc<Mutex<Transport>>,
 }
 
 impl Stream for Script {
   type Item = Result<bytes::Bytes, std::io::Error>;
 
-  fn poll_next(mut self: Pin<&mut Self>, _cx: &mut Context<'_>) -> Poll<Option<Self::Item>> {
+  fn poll_next(mut self: Pin<&mut Self>, cx: &mut Context<'_>) -> Poll<Option<Self::Item>> {
     match self.steps.pop_front() {
       None => Poll::Ready(None),
-      Some(Step::Pending) => Poll::Pending,
+      Some(Step::PendLater) => {
+        let mut t = self.tr.lock().unwrap();
+        t.pending_in_call = true;
+        t.kept = Some(cx.waker().clone());
+        Poll::Pending
+      }
+      Some(Step::PendWake) => {
+        self.tr.lock().unwrap().pending_in_call = true;
+        cx.waker().wake_by_ref();
+        Poll::Pending
+      }
       Some(Step::Chunk(b)) => Poll::Ready(Some(Ok(bytes::Bytes::from(b)))),
     }
   }
 }
 
+/// the task's waker: counts `wake` / `wake_by_ref`
+struct Counting(AtomicUsize);
+
+impl Wake for Counting {
+  fn wake(self: Arc<Self>) {
+    self.0.fetch_add(1, Ordering::SeqCst);
+  }
+
+  fn wake_by_ref(self: &Arc<Self>) {
+    self.0.fetch_add(1, Ordering::SeqCst);
+  }
+}
+
+/// A minimal executor: after `Poll::Pending` the task is polled again ONLY if its waker was woken
+/// (during the call, or by the transport that kept it).  A `Pending` with no wake-up is a lost
+/// wake-up: reported as `{"stalled":true,..}` and the run stops there, as it would under any runtime.
 fn run(script: &Value) -> Result<Value, String> {
   let mut steps = VecDeque::new();
   for s in script.as_array().ok_or("script")? {
     match s {
-      Value::String(p) if p == "p" => steps.push_back(Step::Pending),
+      Value::String(p) if p == "p" => steps.push_back(Step::PendLater),
+      Value::String(p) if p == "w" => steps.push_back(Step::PendWake),
       Value::Array(a) => steps.push_back(Step::Chunk(
         a.iter().map(|n| n.as_u64().unwrap_or(0) as u8).collect(),
       )),
@@ -46,24 +94,51 @@ fn run(script: &Value) -> Result<Value, String> {
     }
   }
   let nsteps = steps.len();
-  let body = reqwest::Body::wrap_stream(Script { steps });
+  let tr = Arc::new(Mutex::new(Transport::default()));
+  let body = reqwest::Body::wrap_stream(Script { steps, tr: tr.clone() });
   let resp = reqwest::Response::from(http::Response::new(body));
   let mut es = EventStream::<Value>::from_response(resp);
-  let waker = noop_waker();
+  let counter = Arc::new(Counting(AtomicUsize::new(0)));
+  let waker = Waker::from(counter.clone());
   let mut cx = Context::from_waker(&waker);
   let mut out = vec![];
+  let mut items = 0usize;
   // bounded: every poll consumes a script step or yields an item; items are bounded by bytes
   let total: usize = script.as_array().unwrap().iter().map(|s| s.as_array().map_or(1, |a| a.len() + 1)).sum();
   for _ in 0..(2 * (nsteps + total) + 8) {
+    tr.lock().unwrap().pending_in_call = false;
+    let before = counter.0.load(Ordering::SeqCst);
     match Pin::new(&mut es).poll_next(&mut cx) {
-      Poll::Pending => out.push(json!("pending")),
+      Poll::Pending => {
+        let inner = tr.lock().unwrap().pending_in_call;
+        let woke = counter.0.load(Ordering::SeqCst) > before;
+        // the reactor: a transport that kept a waker wakes it now
+        let kept = tr.lock().unwrap().kept.take();
+        if let Some(w) = kept {
+          w.wake();
+        }
+        if counter.0.load(Ordering::SeqCst) == before {
+          out.push(json!({"stalled": true, "after_events": items, "inner": inner}));
+          return Ok(Value::Array(out));
+        }
+        out.push(json!({"pending": {"inner": inner, "woke": woke}}));
+      }
       Poll::Ready(None) => {
         out.push(json!("done"));
         return Ok(Value::Array(out));
       }
-      Poll::Ready(Some(Ok(v))) => out.push(json!({"ok": v})),
-      Poll::Ready(Some(Err(EventStreamError::JsonDeserialize { .. }))) => out.push(json!("jsonerr")),
-      Poll::Ready(Some(Err(EventStreamError::SseParse(_)))) => out.push(json!("sseerr")),
+      Poll::Ready(Some(Ok(v))) => {
+        items += 1;
+        out.push(json!({"ok": v}));
+      }
+      Poll::Ready(Some(Err(EventStreamError::JsonDeserialize { .. }))) => {
+        items += 1;
+        out.push(json!("jsonerr"));
+      }
+      Poll::Ready(Some(Err(EventStreamError::SseParse(_)))) => {
+        items += 1;
+        out.push(json!("sseerr"));
+      }
     }
   }
   out.push(json!("no-end"));
